@@ -371,6 +371,10 @@ def run(ctx, rep, model=True):
                 m = plotgen.ulp_below(spec["grid0"][d])
                 if m is not None:
                     spec["geo_low"][d], spec["dx0"][d] = m; rep.count("box-bound-one-ulp-below-domain-bound")
+        if i % 3 == 0:
+            # a domain that holds the coordinate 0 away from its centre, in every direction
+            spec["geo_low"] = [-spec["dx0"][d] * max(1, spec["grid0"][d] // 4) for d in range(3)]
+            rep.count("domain-holding-the-coordinate-0-off-centre")
         if i % 4 == 1 and len(spec["levels"]) >= 2:
             # cell sizes printed with 15 significant digits: the parsed sizes of two levels are not exact halves
             hb = plotgen.halving_breaks(15, 3, len(spec["levels"]))
@@ -388,8 +392,8 @@ def run(ctx, rep, model=True):
         for cn in range(3):
             plist = positions(spec, cn, ctx.rng)
             if ctx.quick and len(plist) > 26:
-                head = plist[:7]
-                rest = plist[7:]
+                head = plist[:7] + [x for x in plist[7:] if x[0] == "zero"]      # the coordinate 0 is always tried where the domain holds it
+                rest = [x for x in plist[7:] if x[0] != "zero"]
                 ctx.rng.shuffle(rest)
                 plist = head + rest[:19]
             for j, (nm, pos) in enumerate(plist):
